@@ -297,7 +297,8 @@ def toks_sexp(ts):
         elif tag == "x":
             out.append("(x %s)" % expr_sexp(t[1]))
         elif tag == "fn":
-            out.append("(fn %d %s)" % (t[1], t[2]))
+            # "r00" is the closure form c00 written with an early `return` (a spelling the model does not see)
+            out.append("(fn %d %s)" % (t[1], "c00" if t[2] == "r00" else t[2]))
         elif tag == "path":
             out.append("(path %s)" % t[1])
         else:
